@@ -436,38 +436,48 @@ class Exec:
                 self.results.append(Result(e.status, s, e.info, getattr(e, 'ret', None)))
         return self.results
 
-    def run_threads(self, result):
-        """after the main thread of a path has finished: run every goroutine it (transitively) spawned to completion, sequentially,
-        on the same heap (they communicate only through channel/server events, which are recorded, not executed). Returns the final state
-        or raises Unsupported if a goroutine forks or fails."""
-        st = result.state
-        done = 0
-        while True:
+    def run_threads(self, result, max_states=64):
+        """after the main thread of a path has finished: run every goroutine it (transitively) spawned to completion, one after the
+        other, on the same heap (they communicate only through channel/server events, which are recorded, not executed).
+        Nondeterministic stub outcomes inside a goroutine fork the exploration. Returns the list of final states."""
+        finals = []
+        work = [(result.state, 0)]
+        while work:
+            st, done = work.pop()
             ths = st.heap.get(('threads',), ())
             if done >= len(ths):
-                break
+                st.tid = 0
+                finals.append(st)
+                if len(finals) > max_states:
+                    raise Unsupported('too many goroutine outcome combinations')
+                continue
             tid, target, args, pos = ths[done]
-            done += 1
             st.tid = tid
             st.frames = []
             dummy = Frame({'name': 'goroutine#%d' % tid, 'blocks': [{'index': 0, 'instrs': [{'op': 'Return', 'results': []}], 'preds': [], 'succs': []}], 'params': [], 'freevars': []})
             st.frames.append(dummy)
+            live = []
             try:
                 out = self.invoke_value(st, dummy, target, list(args), ret_to=('defer', None), pos=pos)
-                if out is not None:
-                    raise Unsupported('goroutine %d forks at its first call' % tid)
-                while True:
-                    forks = self.step_until_fork(st)
-                    if forks is not None:
-                        if len(forks) != 1:
-                            raise Unsupported('goroutine %d has data-dependent control flow (%d successors) at %s' % (tid, len(forks), getattr(self, 'cur_pos', '?')))
-                        st = forks[0]
-                        st.tid = tid
+                live = list(out) if out is not None else [st]
             except PathEnd as e:
                 if e.status != 'ok':
                     st.events.append(('cev', tid, 'abort', e.status, str(e.info), None))
-            st.tid = 0
-        return st
+                work.append((st, done + 1))
+                continue
+            while live:
+                s2 = live.pop()
+                s2.tid = tid
+                try:
+                    forks = self.step_until_fork(s2)
+                    for f in forks:
+                        f.tid = tid
+                    live.extend(forks)
+                except PathEnd as e:
+                    if e.status != 'ok':
+                        s2.events.append(('cev', tid, 'abort', e.status, str(e.info), None))
+                    work.append((s2, done + 1))
+        return finals
 
     def step_until_fork(self, st):
         """execute instructions of state st until it ends (PathEnd) or forks (returns list of successor states)"""
@@ -967,6 +977,12 @@ class Exec:
         if not ok:
             raise PathEnd('panic', 'type assertion failed at %s' % ins.get('pos'))
         self.setreg(fr, ins, x.v if self.under(at)['kind'] != 'iface' else x)
+
+    def op_Select(self, st, fr, ins):
+        h = self.stubs.get('chan:select')
+        if h is None:
+            raise Unsupported('select at %s' % ins.get('pos'))
+        return h(self, st, fr, ins)
 
     def op_Lookup(self, st, fr, ins):
         raise Unsupported('map lookup')
